@@ -312,7 +312,7 @@ impl IgnoreMask {
         if comment_content.starts_with("/*") {
             comment_content = comment_content[2..].trim_start();
         }
-        let (line_no, line_pos) = comment
+        let position_marker = comment
             .get_position_marker()
             .ok_or(SQLBaseError {
                 fatal: true,
@@ -324,9 +324,12 @@ impl IgnoreMask {
                 rule: None,
                 source_slice: Default::default(),
                 fixable: false,
-            })?
-            .source_position();
-        NoQADirective::parse_from_comment(comment_content, line_no, line_pos)
+            })?;
+        let (line_no, line_pos) = position_marker.source_position();
+        NoQADirective::parse_from_comment(comment_content, line_no, line_pos).map_err(|mut error| {
+            error.source_slice = position_marker.source_slice.clone();
+            error
+        })
     }
 
     /// Parse a `noqa` directive from an erased segment.
